@@ -780,6 +780,23 @@ def bounded(payload):
         for t in (c, ["sum", ["var", "a"], c], ["prod", c, ["var", "a"]], ["pow", c, ["var", "a"]]):
             run(t)
 
+    # ---- twins: subexpressions that compare equal in Python (1 == 1.0) but print differently, in one expression ----
+    a_ = ["var", "a"]
+    twins = [(["int", 1], ["float", "1.0"]), (["int", 2], ["float", "2.0"]), (["int", 0], ["float", "0.0"]),
+             (["sum", a_, ["int", 1]], ["sum", a_, ["float", "1.0"]]),
+             (["prod", ["int", 2], a_], ["prod", ["float", "2.0"], a_]),
+             (["call", ["var", "<func>f"], [["int", 3]]], ["call", ["var", "<func>f"], [["float", "3.0"]]]),
+             (["sub", ["var", "<state>y"], [["int", 1]]], ["sub", ["var", "<state>y"], [["float", "1.0"]]])]
+    n_tw = 0
+    for p_, q_ in twins:
+        for x_, y_ in ((p_, q_), (q_, p_)):
+            for t in (["sum", x_, y_], ["prod", x_, y_], ["quot", x_, y_], ["pow", x_, y_], ["cmp", "<", x_, y_],
+                      ["call", ["var", "g"], [x_, y_]], ["call", ["var", "g"], [x_], {"t": y_}],
+                      ["if", ["var", "<cond>c"], x_, y_], ["quot", ["prod", ["var", "b"], x_], y_]):
+                run(t)
+                n_tw += 1
+    parts["equal_but_differently_printed_twins"] = n_tw
+
     # ---- backtick names, exhaustive over short names ----
     nb = 0
     for n in [""] + ["".join(x) for k in (1, 2, 3) for x in itertools.product("a1_<>:", repeat=k)]:
